@@ -18,7 +18,7 @@ TRUSTED_REMOTE = [
 ]
 
 MANIFEST = {
-    "text": "Two tied models. (1) Kernel model (watchers, onWatch immediate answer when terminating, dead-letter process answering Watch for unknown addresses, "
+    "text": "Kernel/WatchTable.v: the watcher table of every object changes only by that object's own processing of Watch / Unwatch requests (C06_watcher_table_follows_requests: exact next-table function for every label, from any state) — 'has watched and not unwatched' is a statement about processed requests. Two tied models. (1) Kernel model (watchers, onWatch immediate answer when terminating, dead-letter process answering Watch for unknown addresses, "
             "notification of watchers then parent with the parent skipped among the watchers) replayed in lockstep against the real actor "
             "system with Watch/UnWatch placed at random relative to terminations, including never-existing addresses and watching parents. "
             "Proved for every role table and every run from the fresh system (Kernel/Watch.v, invariant over watcher tables, queued Watch "
